@@ -784,7 +784,8 @@ class Engine:
                             st.trace.append(Event("assume", "variant", None, (snapshot(old), ev.name), fr.bi, t["line"], len(st.frames), fr.body.npath if fr.body else "?"))
                         store(d2.loc, ev)
                     else:
-                        old = load(d2.loc)
+                        if isinstance(old, SymV):
+                            st.trace.append(Event("assume", "variant-other", None, (snapshot(old), tuple(sorted(table.get(c_, c_) if table else c_ for c_ in covered))), fr.bi, t["line"], len(st.frames), fr.body.npath if fr.body else "?"))
                         store(d2.loc, EnumV(adt, None, None, {}, frozenset(covered)))
                     fr.bi = other_bb
                     out.append(s2)
